@@ -234,20 +234,22 @@ struct ChunkedRange {
       size_type chunkSize;
       do {
         size_type roughChunks = dynFactor * workingThreads;
-        chunkSize = (size() + roughChunks - 1) / roughChunks;
+        // ceil(size / roughChunks) without forming size + roughChunks - 1 (overflows near the
+        // limit of size_type, after which dynFactor counts down to a division by zero)
+        chunkSize = size() / roughChunks + (size() % roughChunks != 0 ? 1 : 0);
         if (granularity > 1) {
           // Round UP to a multiple of granularity (no smaller than granularity).
           chunkSize = ((chunkSize + granularity - 1) / granularity) * granularity;
         }
         --dynFactor;
       } while (chunkSize < minChunkSize);
-      return {chunkSize, (size() + chunkSize - 1) / chunkSize};
+      return {chunkSize, size() / chunkSize + (size() % chunkSize != 0 ? 1 : 0)};
     } else if (chunk == kStatic) {
       // This should never be called.  The static distribution versions of the parallel_for
       // functions should be invoked instead.
       std::abort();
     }
-    return {chunk, (size() + chunk - 1) / chunk};
+    return {chunk, size() / chunk + (size() % chunk != 0 ? 1 : 0)};
   }
 
   IntegerT start;
